@@ -24,6 +24,12 @@ def alphabet(kind):
         items["EMPTY"] = b"\r\n"
         items["NONUTF"] = b"\xff\xfe\x80 \xc3\x28\r\n"
         items["LFONLY"] = pk["A"].replace(b"\r\n", b"\n")
+        # well-formed lines the decoder rejects with something other than ValueError
+        from .. import wire as _w
+        if kind == "actisense":
+            items["RAISE"] = (_w.actisense_line(3, 255, 5, 126208, bytes([1, 0, 0xED, 1, 2, 3, 4, 5])) + "\r\n").encode()   # unsupported field type: bare Exception
+        else:
+            items["RAISE"] = (_w.yd_line(_w.can_id(3, 126720, 5, 255), b"\x00") + "\r\n").encode()                        # fast PGN, one byte: IndexError
     if kind == "waveshare":
         from .. import wire as _w
         items["RAISE"] = _w.usb_packet(_w.can_id(3, 126720, 5, 255), b"")     # valid frame, decoder raises (fast PGN, no data)
